@@ -520,8 +520,11 @@ func suiteDaemon(h *H) {
 		os.Symlink(filepath.Join(dir, "lout"), filepath.Join(dir, "labsin"))
 		os.Symlink(filepath.Join(dir, "sub", "deep", "lcd"), filepath.Join(dir, "labsin2"))
 		os.Symlink(filepath.Join(dir, "sub"), filepath.Join(dir, "labsok"))
+		// … and a directory beside the module whose path begins with the module's path (<module>-mirror)
+		os.Symlink("lsibt/", filepath.Join(dir, "lsib"))
+		os.Symlink("../"+filepath.Base(dir)+"-mirror", filepath.Join(dir, "lsibt"))
 	}
-	for _, m := range []string{"ro", "rw", "m", "mx", "shared"} {
+	for _, m := range []string{"ro", "rw", "m", "mx", "shared", "rw-mirror"} {
 		populate(filepath.Join(mods, m))
 	}
 	populated := time.Now()
@@ -537,8 +540,10 @@ func suiteDaemon(h *H) {
 		// one directory exported twice: writable under one name, read-only under another
 		{Name: "sh-rw", Path: filepath.Join(mods, "shared"), Writable: true},
 		{Name: "sh-ro", Path: filepath.Join(mods, "shared")},
+		// a read-only module whose directory name begins with the writable module's
+		{Name: "rw-mirror", Path: filepath.Join(mods, "rw-mirror")},
 	}
-	dm := []dmod{{"ro", false, false, true}, {"rw", true, false, true}, {"m", false, false, true}, {"mx", false, false, true}, {"fsmod", false, true, true}, {"fsshort", false, true, true}, {"deny", false, false, false}, {"sh-rw", true, false, true}, {"sh-ro", false, false, true}}
+	dm := []dmod{{"ro", false, false, true}, {"rw", true, false, true}, {"m", false, false, true}, {"mx", false, false, true}, {"fsmod", false, true, true}, {"fsshort", false, true, true}, {"deny", false, false, false}, {"sh-rw", true, false, true}, {"sh-ro", false, false, true}, {"rw-mirror", false, false, true}}
 	var modSpec []string
 	for _, m := range dm {
 		w, k, a := "r", "dir", "allow"
@@ -586,7 +591,7 @@ func suiteDaemon(h *H) {
 		"sub/../..", "sub/../../outside/", "//../", "/..", "./../", "lout", "lout/", "lout/" + canaryName, "lout/cdir/", "labs", "labs/", "labs/" + canaryName, "lfile", "lin", "lin/",
 		"lin/deep/lcd/", "sub/lup", "sub/lup/", "sub/lup/outside/", "sub/deep/lcd/", "sub/deep/lcd/" + canaryName + "-2", out, out + "/", "/" + strings.TrimPrefix(out, "/") + "/", "/etc/", "x", "x/../../outside/", "sub//inner.txt", "./sub/./deep/", "sub/deep/../../../outside/",
 		// repeated and mixed trailing separators behind a link in the last position, and a link reached through ".."
-		"labsin/", "labsin", "labsin2/", "labsok/", "labsin/cdir/", "lsl", "lsl/", "lsl2/", "lsl2", "sub/lsl3/", "lsl4/", "lsl/cdir/", "lsl//", "lout//", "lout///", "labs//", "lout/./", "lout//.", "sub/../lout//", "sub/../labs//", "sub/deep/lcd//", "sub/lup//", "lin//", "lout//cdir//", "./lout//", "sub//", "sub/deep//"}
+		"lsib/", "lsibt/", "labsin/", "labsin", "labsin2/", "labsok/", "labsin/cdir/", "lsl", "lsl/", "lsl2/", "lsl2", "sub/lsl3/", "lsl4/", "lsl/cdir/", "lsl//", "lout//", "lout///", "labs//", "lout/./", "lout//.", "sub/../lout//", "sub/../labs//", "sub/deep/lcd//", "sub/lup//", "lin//", "lout//cdir//", "./lout//", "sub//", "sub/deep//"}
 	pullCase := func(module, req string, os_ optset, extraArg string) {
 		args := []string{"--server", "--sender", os_.flags}
 		if extraArg != "" {
@@ -608,6 +613,26 @@ func suiteDaemon(h *H) {
 					continue
 				}
 				pullCase(module, req, os_, "")
+			}
+		}
+	}
+	// several paths in one request: every one of them stays inside the module, wherever it stands in the request
+	for _, module := range []string{"ro", "rw", "m"} {
+		for _, harmless := range []string{"a.txt", "sub/", ""} {
+			for _, esc := range []string{"lsl/", "labsin/", "lout/", "../outside/", "lsl2/", "labs/", "sub/lsl3/", "labsin2/"} {
+				for _, order := range [][]string{{harmless, esc}, {esc, harmless}, {harmless, harmless, esc}} {
+					if !h.thorough() && module != "ro" && (len(esc)+len(harmless))%3 != 0 {
+						continue
+					}
+					args := []string{"--server", "--sender", "-logDtpr", "."}
+					for _, pth := range order {
+						args = append(args, module+"/"+pth)
+					}
+					res := talk(addr, "@RSYNCD: 27", module, args, "pull", optsets[0].o, false, "", nil)
+					v := leak(res.raw)
+					h.emit(fmt.Sprintf("!daemon-multipath seed=%d module=%s paths=%q", h.seed, module, order), res.class, v, true)
+					h.stat("daemon.multipath." + res.class)
+				}
 			}
 		}
 	}
@@ -837,6 +862,9 @@ func suiteDaemon(h *H) {
 		}
 		if afterSib := canarySnapshot(mods, modDir); afterSib != beforeSib && v == "" && modDir != "" {
 			v = "FAIL[C05] an upload changed something beside the module directory (its parent or a sibling module): " + firstDiff(beforeSib, afterSib)
+			if strings.Contains(firstDiff(beforeSib, afterSib), "rw-mirror") {
+				v += " || FAIL[C07] the directory of a module that is not writable was modified through an upload to another module"
+			}
 		}
 		if afterOut := canarySnapshot(base, mods); afterOut != beforeOut && v == "" {
 			v = "FAIL[C05] an upload changed something outside the module directories: " + firstDiff(beforeOut, afterOut)
@@ -910,7 +938,7 @@ func suiteDaemon(h *H) {
 		pushCase("rw", target, []string{"-nr", "--delete"}, "")
 	}
 	// subdirectory arguments of a writable upload that try to leave the module (C05)
-	for _, target := range []string{"labsin/", "labsin2/", "labsok/", "lsl/", "lsl", "lsl2/", "sub/lsl3/", "lsl4/", "lsl/newq/", "lpar/", "lpar", "lpar/newp/", "lout/", "labs/", "lout", "sub/lup/", "sub/deep/lcd/", "lout//", "lin/", "../outside/new/", "sub/../../outside/new2/", "lout/new3/", "labs/new4/", "sub/lup/outside/new5/", "../", "..", "/../outside/new6/", "lfile/", "sub/deep/lcd/new7/", "lin/../../../outside/new8/"} {
+	for _, target := range []string{"lsib/", "lsib", "lsib/newsib/", "lsibt/", "labsin/", "labsin2/", "labsok/", "lsl/", "lsl", "lsl2/", "sub/lsl3/", "lsl4/", "lsl/newq/", "lpar/", "lpar", "lpar/newp/", "lout/", "labs/", "lout", "sub/lup/", "sub/deep/lcd/", "lout//", "lin/", "../outside/new/", "sub/../../outside/new2/", "lout/new3/", "labs/new4/", "sub/lup/outside/new5/", "../", "..", "/../outside/new6/", "lfile/", "sub/deep/lcd/new7/", "lin/../../../outside/new8/"} {
 		for _, fl := range flagSets[:2] {
 			pushCase("rw", target, fl, "")
 		}
